@@ -119,8 +119,7 @@ theorem coh_joint2 {O log start keys m} (h : Coh O log start keys m) (evs : List
       · subst h1
         left
         rw [getBox_setBox_same _ _ _ _ hb1, if_pos rfl]
-      · rw [getBox_setBox_other _ _ _ _ h1, if_neg h1, if_neg h2, opsOf_snoc, if_neg (fun h => h2 h.symm),
-          opsOf_snoc, if_neg (fun h => h1 h.symm)]
+      · rw [getBox_setBox_other _ _ _ _ h1, if_neg h1, if_neg h2]
         exact h.box k hk
   · intro k hk
     rw [tr2, ops2, rp, projSeq_append, h.tr k hk, hproj k hk]
